@@ -2,6 +2,7 @@
 package c18
 
 import (
+	"encoding/base64"
 	"time"
 	"syscall"
 	"net"
@@ -58,6 +59,10 @@ type Case struct {
 	// of a connection (SetReadDeadline ...), io.WriterTo, io.ByteReader - code that special-cases capabilities of
 	// its source must still report what the source reports.
 	Src int `json:"src,omitempty"`
+	// Dup > 0 (CAR artefacts, read operations): section (Dup-1) mod n of the CAR is repeated at the end of the
+	// stream - legal CARv1 that the library's own writer never produces (a concatenation of exports, a relay that
+	// re-sends a block). The buffered reader's result on these bytes is the reference, as for every other stream.
+	Dup int `json:"dup,omitempty"`
 }
 
 type timeoutErr struct{}
@@ -476,6 +481,24 @@ func buildArtefact(cs Case) (*built, bool) {
 	if cs.Art != "token" && cs.Art != "tokenjson" {
 		b.det = len(b.writer) == 1
 	}
+	if err == nil && cs.Dup > 0 && (cs.Art == "car" || cs.Art == "carb64") && cs.Op != "writefault" {
+		raw := b.bytes
+		if cs.Art == "carb64" {
+			if raw, err = ctr.Unbase64(b.bytes); err != nil {
+				return nil, false
+			}
+		}
+		secs, _, serr := ctr.CarSections(raw)
+		if serr != nil || len(secs) == 0 {
+			return nil, false
+		}
+		sc := secs[(cs.Dup-1)%len(secs)]
+		raw = append(append([]byte{}, raw...), raw[sc.Start:sc.End]...)
+		if cs.Art == "carb64" {
+			raw = []byte(base64.StdEncoding.EncodeToString(raw))
+		}
+		b.bytes, b.det = raw, false
+	}
 	return b, err == nil
 }
 
@@ -754,6 +777,9 @@ func draw(t *rapid.T) Case {
 	cs.Toks = drawToks(t, n)
 	cs.Op = rapid.SampledFrom([]string{"chunk", "chunk", "readfault", "readfault", "writefault"}).Draw(t, "op")
 	cs.Chunk = rapid.SliceOfN(rapid.IntRange(1, 64), 0, 4).Draw(t, "chunk")
+	if (cs.Art == "car" || cs.Art == "carb64") && cs.Op != "writefault" && rapid.IntRange(0, 3).Draw(t, "dup") == 1 {
+		cs.Dup = rapid.IntRange(1, 4).Draw(t, "dupsec")
+	}
 	if rapid.Bool().Draw(t, "typedsrc") {
 		cs.Src = rapid.IntRange(0, len(srcKinds)-1).Draw(t, "src")
 	}
@@ -858,6 +884,35 @@ func TestFaultEnumeration(t *testing.T) {
 							cs.Chunk = []int{1}
 						}
 						prop.One(t, cs)
+					}
+				}
+				// the same CAR with one of its blocks repeated at the end: cut / failing at every offset
+				if art == "car" || art == "carb64" {
+					for dup := 1; dup <= len(set); dup++ {
+						db := base
+						db.Dup = dup
+						bb, ok := buildArtefact(Case{Toks: set, Art: art, Dup: dup, Op: "readfault"})
+						if !ok {
+							t.Fatalf("INCONCLUSIVE CAR with a repeated block does not build")
+						}
+						for _, ch := range [][]int{nil, {1}, {7}} {
+							cs := db
+							cs.Op, cs.Chunk = "chunk", ch
+							prop.One(t, cs)
+						}
+						for k := 0; k <= len(bb.bytes); k++ {
+							if h.Tier() == "quick" && k < len(b.bytes)-8 && k%7 != 0 {
+								continue // quick tier: every offset of the repeated part, every 7th before it
+							}
+							for _, fk := range []string{"eof", "error"} {
+								if k == len(bb.bytes) && fk == "eof" {
+									continue
+								}
+								cs := db
+								cs.Op, cs.FaultKind, cs.K = "readfault", fk, k
+								prop.One(t, cs)
+							}
+						}
 					}
 				}
 				// every error identity x every source type, at both ends, in the middle and at the section boundaries' neighbours
